@@ -114,8 +114,8 @@ CLAIMED = {
     "C15": {
         "category": "other",
         "design_ref": "DESIGN.md section 6, C15",
-        "technique": "Kani bounded harnesses (patterns <= 5 bytes, names <= 5 bytes, all symbolic) on the real glob_match::{analyze_glob_pattern, unescape_pattern}, SectionRule::{new, matches}, SectionNameMatcher::prefix_bytes and section_name_prefix_hash, against fnmatch restricted to metacharacter-free patterns",
-        "text": "WILD'S OWN PATTERN CODE ONLY, BOUNDED - wildcard matching itself (glob crate) and the hash-table probe (hashbrown) are assumed, so 'the first matching description wins' and KEEP are not decided. For every pattern of at most 5 bytes and name of at most 5 bytes CBMC proves: a pattern is treated as a glob exactly when it has an unescaped * ? [ ]; unescaping removes exactly the escaping backslashes; a pattern without unescaped metacharacters is accepted, becomes an exact rule that matches precisely the names fnmatch matches, keyed by its unescaped text; a rule with at least four literal bytes has a hash key and every name it matches probes that key; the prefix hash depends on exactly the first four bytes. One known finding (patterns with fewer than 4 literal leading bytes panic or never match) is listed in known_findings.json and reported as KNOWN-FINDING.",
+        "technique": "Kani bounded harnesses (patterns of 4 and 5 bytes, names of 4 bytes in the quick tier; concrete lengths, all bytes symbolic) on the real glob_match::{analyze_glob_pattern, unescape_pattern}, SectionRule::{new, matches}, SectionNameMatcher::prefix_bytes and section_name_prefix_hash, against fnmatch restricted to metacharacter-free patterns",
+        "text": "WILD'S OWN PATTERN CODE ONLY, BOUNDED - wildcard matching itself (glob crate) and the hash-table probe (hashbrown) are assumed, so 'the first matching description wins' and KEEP are not decided. For every pattern of 4 or 5 bytes and every name of 4 bytes (2- and 5-byte variants in the thorough tier) CBMC proves: a pattern is treated as a glob exactly when it has an unescaped * ? [ ]; unescaping removes exactly the escaping backslashes; a pattern without unescaped metacharacters is accepted, becomes an exact rule that matches precisely the names fnmatch matches, keyed by its unescaped text; a rule with at least four literal bytes has a hash key and every name it matches probes that key; the prefix hash depends on exactly the first four bytes. One known finding (patterns with fewer than 4 literal leading bytes panic or never match) is listed in known_findings.json and reported as KNOWN-FINDING.",
         "note": "Assumed: glob::Pattern implements fnmatch (did not finish under CBMC); hashbrown HashTable insert/find (crashes the Kani compiler). memchr's CPU feature probe stubbed (portable path).",
     },
     "C22": {
@@ -149,7 +149,7 @@ CLAIMED = {
 }
 
 # properties whose check has run green on the unchanged tree (only these are claimed)
-READY = {"C01", "C02", "C09", "C12", "C13", "C14", "C16", "C17", "C22", "C23", "C29", "C31"}
+READY = {"C01", "C02", "C09", "C12", "C13", "C14", "C16", "C17", "C15", "C22", "C23", "C29", "C31"}
 
 PENDING = {
     pid: "check under construction in this session (planned claim, see DESIGN.md section 6); not claimed until its obligations run green"
